@@ -8,7 +8,7 @@ if [ -n "$(git -C /repo status --porcelain --untracked-files=no -- src)" ]; then
 for sid in $ids; do
   prop=${sid%%-*}
   S=$(mktemp -d /tmp/seedreg.XXXXXX)
-  git -C /repo apply seeded/$sid/patch.diff || { echo "$sid patch does not apply" | tee -a $out.tmp; continue; }
+  git -C /repo apply /verif/seeded/$sid/patch.diff || { echo "$sid patch does not apply" | tee -a $out.tmp; continue; }
   PV_EVIDENCE_DIR=$S/ev PV_REPLAY_DIR=$S/rp timeout 3000 ./check $prop quick > $S/out.txt 2>&1; rc=$?
   git -C /repo checkout -- src
   nv=$(grep -c '^VIOLATION' $S/out.txt); np=$(grep '^VIOLATION' $S/out.txt | grep -vc 'bounded/')
